@@ -34,3 +34,12 @@ Definition agree_static (c : scase) : bool :=
   implb (pdraw_free sk) (forallb draw_free models).
 Definition ident_static (c : scase) : nat := let '(i, _, _, _) := c in i.
 Definition failing_static := failing_ids agree_static ident_static.
+
+(* STATIC correspondence for the functions WITHOUT random choices (SVD- / user-initialised decompositions with their
+   constant arguments propagated, SVD-based TT / TR, robust PCA, tensor algebra, the deterministic SVDs): the source
+   is transcribed like above -- here EVERY callee that can be resolved inside tensorly is inlined, not only the
+   seed-accepting ones -- and the transcribed skeleton must contain no draw at all ([pdraw_free]; Props
+   C16_source_rng_free: then nothing is drawn from any generator and repeated calls see the same thing). *)
+Definition rcase := (nat * pskel)%type.
+Definition agree_rngfree (c : rcase) : bool := pdraw_free (snd c).
+Definition failing_rngfree := failing_ids agree_rngfree (fun c : rcase => fst c).
